@@ -12,7 +12,8 @@ Case (plain JSON)
     {"t0": epoch seconds, "loaders": {"A": "dict"|"caching", "B": ...},
      "templates": {name: source}      loader contents of A and B (never modified)
      "sources": [source, ...]         pool for from_string / parse()
-     "data": [{...}, ...]             pool of render arguments; nested dicts become drops
+     "data": [{...}, ...]             pool of render arguments; nested dicts become mapping drops,
+                                      lists become sequence drops when the set has "_lists": true
      "h": [op, ...]}
 
 Template reference  tref = [env, kind, key]
@@ -47,6 +48,7 @@ from __future__ import annotations
 import re
 import warnings
 from collections.abc import Mapping
+from collections.abc import Sequence
 from typing import Any
 from typing import Iterator
 
@@ -276,16 +278,54 @@ class Drop(Mapping):  # type: ignore[type-arg]
     __repr__ = __str__
 
 
-def _wrap(v: Any, ctl: Ctl) -> Any:
+class ListDrop(Sequence):  # type: ignore[type-arg]
+    """A read-only sequence; every item access (also each step of an iteration) is counted."""
+
+    __slots__ = ("_l", "_c")
+    __hash__ = None  # type: ignore[assignment]
+
+    def __init__(self, items: list[Any], ctl: Ctl) -> None:
+        self._l = items
+        self._c = ctl
+
+    def __getitem__(self, i: Any) -> Any:
+        self._c.hit()
+        got = self._l[i]
+        return ListDrop(got, self._c) if isinstance(got, list) else got
+
+    async def __getitem_async__(self, i: Any) -> Any:
+        if self._c.suspend:
+            await Yield()
+        return self[i]
+
+    def __len__(self) -> int:
+        return len(self._l)
+
+    def __eq__(self, other: object) -> bool:
+        if isinstance(other, ListDrop):
+            return self._l == other._l
+        return self._l == other
+
+    def __str__(self) -> str:
+        return "ListDrop(" + ",".join(str(x) for x in self._l) + ")"
+
+    __repr__ = __str__
+
+
+def _wrap(v: Any, ctl: Ctl, lists: bool) -> Any:
     if isinstance(v, dict):
-        return Drop({k: _wrap(x, ctl) for k, x in v.items()}, ctl)
+        return Drop({k: _wrap(x, ctl, lists) for k, x in v.items()}, ctl)
     if isinstance(v, list):
-        return [_wrap(x, ctl) for x in v]
+        inner = [_wrap(x, ctl, lists) for x in v]
+        return ListDrop(inner, ctl) if lists else inner
     return v
 
 
 def build_data(raw: dict[str, Any], ctl: Ctl) -> dict[str, Any]:
-    return {k: _wrap(v, ctl) for k, v in raw.items()}
+    """Render arguments from their JSON description: nested dicts become drops; with the
+    key "_lists" set, lists become sequence drops too."""
+    lists = bool(raw.get("_lists"))
+    return {k: _wrap(v, ctl, lists) for k, v in raw.items() if k != "_lists"}
 
 
 # --------------------------------------------------------------------------- env A configuration
@@ -567,6 +607,8 @@ def history_case(draw: Any, tier: str, disabled: frozenset[str]) -> dict[str, An
         dd = draw(data_strategy())
         dd["d"] = {"a": draw(st.integers(-2, 9)), "b": draw(st.sampled_from(["x", "apple", "", "é"])),
                    "c": draw(st.lists(st.integers(0, 9), max_size=5)), "e": {"f": draw(st.sampled_from(["deep", "1"]))}}
+        if draw(st.booleans()):
+            dd["_lists"] = True
         data.append(dd)
     # a small pool of template references; the first is the focus of the history
     cand: list[list[Any]] = []
@@ -681,7 +723,7 @@ class C09(Prop):
         for i, src in enumerate(HAND):
             templates[f"h{i}"] = src
         data = [{"nums": [1, 2, 3], "user": {"name": "n"}, "d": dict(D_DEFAULT)},
-                {"nums": [4, 5], "user": {"name": "m"}, "d": {"a": 7, "b": "apple", "c": [9, 8, 7], "e": {"f": "1"}}}]
+                {"_lists": True, "nums": [4, 5], "user": {"name": "m"}, "d": {"a": 7, "b": "apple", "c": [9, 8, 7], "e": {"f": "1"}}}]
         for i in range(len(HAND)):
             if i in HAND_DATE_CONFLATION:
                 continue
